@@ -36,6 +36,19 @@ import (
 // served with exact capacity, as sub-slices of one back-to-back array, or with
 // canary cells between them. IDom -> DomFrontier -> Dom run on one slice
 // (kind pipeline-Dom when the tree built from it is wrong).
+//
+// Round 3: on every other case DomFrontier and Dom get a caller-made copy of
+// the idom slice (own array, junk in the spare capacity) instead of the slice
+// IDom returned; every DomTree is asked twice (ascending IDom/Out/In, then
+// descending In/Out/IDom), every answer judged against the inversion of idom*;
+// on every fourth case the library sees the graph through c19V (struct value,
+// nil for empty lists, fresh copy of a list per call). Depth: bidirectional
+// chains up to the 40-node limit and beyond (deterministic family of maximal
+// chains, class chain-maximal), paths as long as the graph (dominator tree
+// depth 39, and 1000+), heavy multi-edges (multiplicity 50+, in-degree 200+).
+// The number of sweeps an iterative dataflow solution of the reference's own
+// (ref.DomIter) needs, the depth of the tree idom* and the weight of the
+// predecessor lists are recorded as classes.
 
 type c19Case struct {
 	Out  [][]int `json:"out"`          // successor lists, order and multiplicity as handed to the library
@@ -49,6 +62,13 @@ type c19Case struct {
 	// sub-slices of one back-to-back array (their capacity reaches into the
 	// following lists); 2 like 1 with a few canary cells after every list.
 	Layout int `json:"layout,omitempty"`
+	// Mode, bit c19CopyIdom: DomFrontier and Dom get a caller-made copy of the
+	// slice IDom returned (len n, spare capacity filled with junk) instead of
+	// that very slice. Bit c19ValueGraph: the library sees the graph through
+	// a second BiGraph implementation (a struct value holding slices, not a
+	// pointer; empty lists are nil; every call of In/Out returns a fresh copy
+	// of the list).
+	Mode int `json:"mode,omitempty"`
 }
 
 const (
@@ -56,7 +76,29 @@ const (
 	c19CSR    = 1
 	c19Slack  = 2
 	c19Canary = -0x5ca1ab1e
+
+	c19CopyIdom   = 1
+	c19ValueGraph = 2
 )
+
+// c19ModeOf derives a mode from a hash: the idom copy on every other case,
+// the value-type graph on every fourth.
+func c19ModeOf(h uint) int {
+	h = h*2654435761 + 0x9e37
+	m := int(h >> 9 & 1)
+	if h>>13&3 == 0 {
+		m |= c19ValueGraph
+	}
+	return m
+}
+
+func c19RandMode(rng *mon.Rand) int {
+	m := rng.Intn(2)
+	if rng.Intn(4) == 0 {
+		m |= c19ValueGraph
+	}
+	return m
+}
 
 func init() {
 	mon.Register(&mon.Prop{ID: "C19", Run: c19Run, Replay: func(w *mon.W, v *mon.ViolationRec) {
@@ -93,6 +135,28 @@ func (g *c19G) tick() {
 func (g *c19G) NumNodes() int   { g.tick(); return len(g.out) }
 func (g *c19G) Out(i int) []int { g.tick(); return g.out[i] }
 func (g *c19G) In(i int) []int  { g.tick(); return g.in[i] }
+
+// c19V is the second BiGraph implementation: a struct value (holding slices, so
+// it is neither a pointer nor comparable), empty lists are nil, and every call
+// returns a fresh copy of the list (nothing the library writes into a list
+// reaches the graph, and nothing it keeps is shared with it). It counts into
+// the same budget.
+type c19V struct {
+	out, in [][]int
+	ctr     *c19G
+}
+
+var _ graph.BiGraph = c19V{}
+
+func c19Fresh(l []int) []int {
+	if len(l) == 0 {
+		return nil
+	}
+	return append(make([]int, 0, len(l)), l...)
+}
+func (g c19V) NumNodes() int   { g.ctr.tick(); return len(g.out) }
+func (g c19V) Out(i int) []int { g.ctr.tick(); return c19Fresh(g.out[i]) }
+func (g c19V) In(i int) []int  { g.ctr.tick(); return c19Fresh(g.in[i]) }
 
 // c19StepBudget: IDom's estimates can only move up the tree, so there are at
 // most n(n+1) changes, hence at most n^2+n+2 sweeps of at most n In() calls
@@ -137,8 +201,12 @@ type c19Scratch struct {
 	libOut  [][]int
 	libIn   [][]int
 	idomArg []int
+	idomCp  []int
 	tmp     []int
-	kids    []int
+	// children of every node in the tree idom* (ascending), back to back
+	kidsFlat, kidsStart []int
+	it                  ref.DomIter
+	depth, cnt          []int
 	// enumeration buffers
 	eFlat     []int
 	eOut, eIn [][]int
@@ -370,7 +438,7 @@ func c19Transpose(out [][]int) [][]int {
 // transpose of Out as a multiset.
 func c19WellFormed(c c19Case) bool {
 	n := len(c.Out)
-	if n == 0 || c.Root < 0 || c.Root >= n || c.Layout < c19Exact || c.Layout > c19Slack {
+	if n == 0 || c.Root < 0 || c.Root >= n || c.Layout < c19Exact || c.Layout > c19Slack || c.Mode < 0 || c.Mode > 3 {
 		return false
 	}
 	for _, r := range c.Roots {
@@ -419,6 +487,12 @@ func c19Describe(c c19Case) string {
 	case c19Slack:
 		extra += " [lists are sub-slices flat[a:b] of one array with canary cells between them]"
 	}
+	if c.Mode&c19ValueGraph != 0 {
+		extra += " [graph seen through a value-type BiGraph that returns nil for empty lists and a fresh copy of a list on every call]"
+	}
+	if c.Mode&c19CopyIdom != 0 {
+		extra += " [DomFrontier and Dom get a caller-made copy of the idom slice, with spare capacity]"
+	}
 	if len(c.Out) <= 12 {
 		return fmt.Sprintf("out=%v in=%v root=%d%s", c.Out, c.In, c.Root, extra)
 	}
@@ -454,6 +528,91 @@ func (sc *c19Scratch) sortedSet(l []int) ([]int, bool) {
 	}
 	sc.tmp = t
 	return t[:k], dup
+}
+
+// children inverts idom* into sc.kidsStart/sc.kidsFlat: the children of v, in
+// ascending order, are kidsFlat[kidsStart[v]:kidsStart[v+1]].
+func (sc *c19Scratch) children(idom []int) {
+	n := len(idom)
+	if cap(sc.kidsStart) < n+2 {
+		sc.kidsStart, sc.kidsFlat = make([]int, n+2), make([]int, n)
+	}
+	st, flat := sc.kidsStart[:n+2], sc.kidsFlat[:n]
+	for i := range st {
+		st[i] = 0
+	}
+	for _, p := range idom {
+		if p >= 0 {
+			st[p+2]++
+		}
+	}
+	for v := 0; v < n; v++ {
+		st[v+2] += st[v+1]
+	}
+	// st[v+1] is now the start of v's list; filling advances it to the end
+	for ch, p := range idom {
+		if p >= 0 {
+			flat[st[p+1]] = ch
+			st[p+1]++
+		}
+	}
+	sc.kidsStart, sc.kidsFlat = st[:n+1], flat
+}
+
+// spareCopy returns a copy of idom in a buffer of the caller: length n, and
+// behind it 1..4 or n+3 spare cells holding junk (canaries, zeros or -1).
+func (sc *c19Scratch) spareCopy(idom []int, root int) []int {
+	n := len(idom)
+	extra := 1 + (n+root)%4
+	if (n+2*root)%3 == 0 {
+		extra = n + 3
+	}
+	if cap(sc.idomCp) < n+extra {
+		sc.idomCp = make([]int, 2*n+8)
+	}
+	buf := sc.idomCp[:n+extra]
+	copy(buf, idom)
+	junk := [3]int{c19Canary, 0, -1}[(n+root)%3]
+	for i := n; i < len(buf); i++ {
+		buf[i] = junk
+	}
+	return buf[:n:len(buf)]
+}
+
+// domDepth is the depth of the tree idom* (the root has depth 0).
+func (sc *c19Scratch) domDepth(want *c19Want) int {
+	n := len(want.idom)
+	if cap(sc.depth) < n {
+		sc.depth = make([]int, n)
+	}
+	depth := sc.depth[:n]
+	for i := range depth {
+		depth[i] = -1
+	}
+	max := 0
+	for v := 0; v < n; v++ {
+		if !want.reach[v] || depth[v] >= 0 {
+			continue
+		}
+		// walk up to a node of known depth (or the top), then back down
+		k, u := 0, v
+		for u >= 0 && depth[u] < 0 {
+			k++
+			u = want.idom[u]
+		}
+		base := -1
+		if u >= 0 {
+			base = depth[u]
+		}
+		for u = v; u >= 0 && depth[u] < 0; u = want.idom[u] {
+			depth[u] = base + k
+			k--
+		}
+		if depth[v] > max {
+			max = depth[v]
+		}
+	}
+	return max
 }
 
 // ---- the judge ---------------------------------------------------------------
@@ -493,6 +652,9 @@ func c19Judge(w *mon.W, c c19Case, sc *c19Scratch, distinct bool) {
 	default:
 		w.Hit("layout-exact-capacity")
 	}
+	copyIdom, valueGraph := c.Mode&c19CopyIdom != 0, c.Mode&c19ValueGraph != 0
+	w.HitIf(copyIdom, "idom-arg:caller-copy-with-spare-capacity")
+	w.HitIf(valueGraph, "bigraph:value-type,nil-empty-lists,fresh-copies")
 	if len(c.Roots) > 0 {
 		w.Hit("history-several-roots")
 		for _, r := range c.Roots {
@@ -503,27 +665,32 @@ func c19Judge(w *mon.W, c c19Case, sc *c19Scratch, distinct bool) {
 		}
 	}
 	if distinct {
-		h := mon.NewHasher().I(n).I(c.Root).I(c.Layout).Is(c.Roots)
+		h := mon.NewHasher().I(n).I(c.Root).I(c.Layout).I(c.Mode).Is(c.Roots)
 		for v := 0; v < n; v++ {
 			h = h.Is(c.Out[v]).Is(in[v])
 		}
 		w.Distinct(h.Sum()) // the layout class above has marked the case non-trivial
 	}
 
-	// viol records a violation; once a kind has been reported many times the
-	// (expensive) message is no longer formatted, the case is still counted.
+	// viol records a violation; the (expensive) message is formatted for the
+	// first 8 violations of a kind that a worker sees in a class (those are the
+	// ones mon keeps); later ones are only counted.
 	viol := func(kind string, msg func() string) {
 		c19TotalViol.Add(1)
-		if c19Verbose(kind) {
+		if c19Verbose(w, kind) {
 			w.Violate(kind, msg(), c)
 		} else {
-			w.Violate(kind, "(message not formatted: more than 512 violations of this kind)", c)
+			w.Violate(kind, "(message not formatted: this worker has already recorded 8 violations of this kind in this class)", c)
 		}
 	}
 
 	// ---- the library's view: built once per case
 	sc.libGraph(c.Out, in, c.Layout)
 	g := &sc.g
+	var gi graph.BiGraph = g
+	if valueGraph {
+		gi = c19V{sc.libOut, sc.libIn, g}
+	}
 	budget := c19StepBudget(n)
 	slot := sc.slot
 	slot.mu.Lock()
@@ -641,6 +808,7 @@ func c19Judge(w *mon.W, c c19Case, sc *c19Scratch, distinct bool) {
 			w.Hit("root-in>=2")
 		}
 		var unreach, selfLoop, joinUnreach, parJoin, parOnly, highID, dfRoot bool
+		maxMult, maxInDeg, maxUnreachPreds := 0, 0, 0
 		nReach := 0
 		var reachMask uint64
 		for y := 0; y < n; y++ {
@@ -657,23 +825,50 @@ func c19Judge(w *mon.W, c c19Case, sc *c19Scratch, distinct bool) {
 			}
 			preds := in[y]
 			dup, other := false, false
+			if len(preds) > maxInDeg {
+				maxInDeg = len(preds)
+			}
+			unreachPreds := 0
 			for i, p := range preds {
 				if p == y {
 					selfLoop = true
 				}
 				if !want.reach[p] && len(preds) >= 2 {
 					joinUnreach = true
+					unreachPreds++
 				}
 				if p != preds[0] {
 					other = true
 				}
-				if !dup && len(preds) <= 96 {
+				if !dup && len(preds) <= 48 {
 					for _, q := range preds[:i] {
 						if q == p {
 							dup = true
 							break
 						}
 					}
+				}
+			}
+			if unreachPreds > maxUnreachPreds {
+				maxUnreachPreds = unreachPreds
+			}
+			if len(preds) > 48 {
+				// long list: multiplicities by counting
+				if cap(sc.cnt) < n {
+					sc.cnt = make([]int, n)
+				}
+				cnt := sc.cnt[:n]
+				for _, p := range preds {
+					cnt[p]++
+					if cnt[p] > maxMult {
+						maxMult = cnt[p]
+					}
+					if cnt[p] >= 2 {
+						dup = true
+					}
+				}
+				for _, p := range preds {
+					cnt[p] = 0
 				}
 			}
 			if dup && other {
@@ -707,6 +902,40 @@ func c19Judge(w *mon.W, c c19Case, sc *c19Scratch, distinct bool) {
 		w.HitIf(highID, "reachable-node-id>=1024")
 		w.HitIf(dfRoot && rootIn != 1, "root-in-some-frontier")
 		w.HitIf(nReach == 1 && n > 1, "only-root-reachable")
+		w.HitIf(maxMult >= 50, "edge-multiplicity>=50")
+		w.HitIf(maxMult >= 200, "edge-multiplicity>=200")
+		w.HitIf(maxInDeg >= 58, "in-degree>=58")
+		w.HitIf(maxInDeg >= 200, "in-degree>=200")
+		w.HitIf(maxUnreachPreds >= 17, "join-with>=17-unreachable-pred-edges")
+		w.HitIf(maxUnreachPreds >= 32, "join-with>=32-unreachable-pred-edges")
+		if n >= 6 {
+			// how many sweeps the iterative dataflow solution needs, and a
+			// fourth opinion on idom*
+			it := &sc.it
+			if err := it.Run(c.Out, in, root); err != nil {
+				w.R.Inconclusive("reference inconsistent: " + err.Error())
+				return
+			}
+			for v := 0; v < n; v++ {
+				if it.IDom[v] != want.idom[v] {
+					w.R.Inconclusive(fmt.Sprintf("reference inconsistent: idom*[%d] is %d by node deletion and %d by the iterative dataflow solution; %s", v, want.idom[v], it.IDom[v], c19Describe(c)))
+					return
+				}
+			}
+			w.HitIf(it.Sweeps >= 8, "dataflow-fixpoint-needs>=8-sweeps")
+			w.HitIf(it.Sweeps >= 16, "dataflow-fixpoint-needs>=16-sweeps")
+			w.HitIf(it.Sweeps >= 32, "dataflow-fixpoint-needs>=32-sweeps")
+			w.HitIf(it.Sweeps >= 38, "dataflow-fixpoint-needs>=38-sweeps")
+			w.HitIf(it.Sweeps >= 64, "dataflow-fixpoint-needs>=64-sweeps")
+		}
+		if n >= 17 {
+			d := sc.domDepth(want)
+			w.HitIf(d >= 16, "dominator-tree-depth>=16")
+			w.HitIf(d >= 31, "dominator-tree-depth>=31")
+			w.HitIf(d >= 39, "dominator-tree-depth>=39")
+			w.HitIf(d >= 1000, "dominator-tree-depth>=1000")
+		}
+		sc.children(want.idom)
 		if c.Layout != c19Exact {
 			// the cell that follows the root's predecessor list in the shared
 			// array: for the back-to-back layout it is the first predecessor of
@@ -727,7 +956,7 @@ func c19Judge(w *mon.W, c c19Case, sc *c19Scratch, distinct bool) {
 		var idom []int
 		idomOK := false
 		pre := modified
-		if call("IDom", "graph-calls-over-budget/IDom", func() { idom = graphalg.IDom(g, root) }) {
+		if call("IDom", "graph-calls-over-budget/IDom", func() { idom = graphalg.IDom(gi, root) }) {
 			bad := 0
 			if len(idom) != n {
 				bad = 1
@@ -776,48 +1005,68 @@ func c19Judge(w *mon.W, c c19Case, sc *c19Scratch, distinct bool) {
 				return
 			}
 			msg := ""
+			// one query of v: the three accessors in the given order, each answer
+			// judged against the inversion of idom*
+			query := func(v int, rev bool) string {
+				for k := 0; k < 3; k++ {
+					q := k
+					if rev {
+						q = 2 - k
+					}
+					switch q {
+					case 0:
+						if d := tree.IDom(v); d != want.idom[v] {
+							return fmt.Sprintf("IDom(%d)=%d, want %d", v, d, want.idom[v])
+						}
+					case 1:
+						kids := sc.kidsFlat[sc.kidsStart[v]:sc.kidsStart[v+1]]
+						gotOut := tree.Out(v)
+						set, dup := sc.sortedSet(gotOut)
+						bad := dup || len(set) != len(kids)
+						for i := 0; !bad && i < len(set); i++ {
+							bad = set[i] != kids[i]
+						}
+						if bad {
+							return fmt.Sprintf("Out(%d)=%v, want the children %v", v, gotOut, kids)
+						}
+					default:
+						gotIn := tree.In(v)
+						if want.idom[v] >= 0 {
+							if len(gotIn) != 1 || gotIn[0] != want.idom[v] {
+								return fmt.Sprintf("In(%d)=%v, want [%d]", v, gotIn, want.idom[v])
+							}
+						} else if !(len(gotIn) == 0 || (len(gotIn) == 1 && gotIn[0] == -1)) {
+							// a node without immediate dominator: no parent, or the -1 marker
+							return fmt.Sprintf("In(%d)=%v for a node without immediate dominator", v, gotIn)
+						}
+					}
+				}
+				return ""
+			}
 			p, v := mon.Call(func() {
 				if nn := tree.NumNodes(); nn != n {
 					msg = fmt.Sprintf("NumNodes()=%d, want %d", nn, n)
 					return
 				}
-				for v := 0; v < n && msg == ""; v++ {
-					if d := tree.IDom(v); d != want.idom[v] {
-						msg = fmt.Sprintf("IDom(%d)=%d, want %d", v, d, want.idom[v])
-						break
-					}
-					// children of v by inverting idom*
-					sc.kids = sc.kids[:0]
-					for ch, par := range want.idom {
-						if par == v {
-							sc.kids = append(sc.kids, ch)
-						}
-					}
-					gotOut := tree.Out(v)
-					set, dup := sc.sortedSet(gotOut)
-					if dup || len(set) != len(sc.kids) {
-						msg = fmt.Sprintf("Out(%d)=%v, want the children %v", v, gotOut, sc.kids)
-						break
-					}
-					for i := range set {
-						if set[i] != sc.kids[i] {
-							msg = fmt.Sprintf("Out(%d)=%v, want the children %v", v, gotOut, sc.kids)
-							break
-						}
-					}
-					gotIn := tree.In(v)
-					if want.idom[v] >= 0 {
-						if len(gotIn) != 1 || gotIn[0] != want.idom[v] {
-							msg = fmt.Sprintf("In(%d)=%v, want [%d]", v, gotIn, want.idom[v])
-						}
-					} else if !(len(gotIn) == 0 || (len(gotIn) == 1 && gotIn[0] == -1)) {
-						// a node without immediate dominator: no parent, or the -1 marker
-						msg = fmt.Sprintf("In(%d)=%v for a node without immediate dominator", v, gotIn)
+				for v := 0; v < n; v++ {
+					if msg = query(v, false); msg != "" {
+						return
 					}
 				}
+				// the same tree asked a second time, nodes and accessors in the
+				// opposite order: the answers must still be the inversion of idom*
+				for v := n - 1; v >= 0; v-- {
+					if m := query(v, true); m != "" {
+						msg = "asked a second time (nodes in descending order, accessors in the order In, Out, IDom), after every node had been asked once: " + m
+						return
+					}
+				}
+				if nn := tree.NumNodes(); nn != n {
+					msg = fmt.Sprintf("NumNodes()=%d when asked a second time, want %d", nn, n)
+				}
 			})
-			w.EvalN("DomTree.IDom/In/Out", int64(3*n))
-			w.Eval("DomTree.NumNodes")
+			w.EvalN("DomTree.IDom/In/Out", int64(6*n))
+			w.EvalN("DomTree.NumNodes", 2)
 			if p {
 				viol("panic-"+kind+"Tree", func() string {
 					return fmt.Sprintf("inspecting Dom(%s) panicked: %v; idom*=%v; %s", what, v, c19Short(want.idom), c19Describe(c))
@@ -840,10 +1089,18 @@ func c19Judge(w *mon.W, c c19Case, sc *c19Scratch, distinct bool) {
 			var arg []int
 			pipeline := false
 			if pass == 0 {
-				if idomOK {
+				switch {
+				case idomOK && !copyIdom:
 					arg, pipeline = idom, true
 					w.Note("pipeline:IDom->DomFrontier->Dom-on-one-slice")
-				} else {
+				case idomOK:
+					// what a caller does who keeps the result in a buffer of its
+					// own: same values, another array, spare capacity behind it
+					arg, pipeline = sc.spareCopy(idom, root), true
+					w.Note("pipeline:IDom->caller's-copy->DomFrontier->Dom")
+				case copyIdom:
+					arg = sc.spareCopy(want.idom, root)
+				default:
 					sc.idomArg = append(sc.idomArg[:0], want.idom...)
 					arg = sc.idomArg
 				}
@@ -852,7 +1109,7 @@ func c19Judge(w *mon.W, c c19Case, sc *c19Scratch, distinct bool) {
 			}
 			var df [][]int
 			pre := modified
-			ok := call(op, key, func() { df = graphalg.DomFrontier(g, root, arg) })
+			ok := call(op, key, func() { df = graphalg.DomFrontier(gi, root, arg) })
 			if pass == 0 {
 				// the idom argument after the call, and Dom on that very slice
 				changed := -1
@@ -865,6 +1122,9 @@ func c19Judge(w *mon.W, c c19Case, sc *c19Scratch, distinct bool) {
 				src := "idom*"
 				if pipeline {
 					src = "the slice returned by IDom"
+					if copyIdom {
+						src = "a caller-made copy (with spare capacity) of the slice returned by IDom"
+					}
 				}
 				if changed < 0 {
 					judgeDom(arg, "Dom", src)
@@ -1020,7 +1280,14 @@ func c19OtherRoots(c c19Case, libOut, libIn, in [][]int) []int {
 	return roots
 }
 
-var c19VCount sync.Map // kind -> *atomic.Int64
+// c19VCount counts, per worker of a class and kind of violation, how many
+// violations have been recorded.
+var c19VCount sync.Map // c19VKey -> *atomic.Int64
+
+type c19VKey struct {
+	w    *mon.W
+	kind string
+}
 
 // c19TotalViol counts violations of this process (a call that ran into the
 // step budget counts 40); beyond c19GiveUp the remaining workload is skipped
@@ -1029,9 +1296,13 @@ var c19TotalViol atomic.Int64
 
 const c19GiveUp = 20000
 
-func c19Verbose(kind string) bool {
-	v, _ := c19VCount.LoadOrStore(kind, new(atomic.Int64))
-	return v.(*atomic.Int64).Add(1) <= 512
+func c19Verbose(w *mon.W, kind string) bool {
+	k := c19VKey{w, kind}
+	v, ok := c19VCount.Load(k)
+	if !ok {
+		v, _ = c19VCount.LoadOrStore(k, new(atomic.Int64))
+	}
+	return v.(*atomic.Int64).Add(1) <= 8
 }
 
 func c19Short(xs []int) string {
@@ -1363,41 +1634,7 @@ func c19GenIrreducible(rng *mon.Rand, i int) (c19Case, string) {
 	b := &c19B{}
 	root := 0
 	if i%4 == 3 {
-		// A chain c1<->c2<->...<->ck entered from both ends: every ci is
-		// immediately dominated by the entry, and a sweep-based algorithm
-		// learns that for one more node per sweep (about k sweeps).
-		k := rng.Range(3, 30)
-		root = b.node()
-		a, z := root, root
-		if rng.Bool() {
-			a = b.node()
-			b.edge(root, a)
-		}
-		if rng.Bool() {
-			z = b.node()
-			b.edge(root, z)
-		}
-		first := b.n()
-		b.nodes(k)
-		for j := 0; j+1 < k; j++ {
-			b.edge(first+j, first+j+1)
-			b.edge(first+j+1, first+j)
-		}
-		if rng.Bool() {
-			b.edge(a, first)
-			b.edge(z, first+k-1)
-		} else { // the far end first in the successor list of a shared entry
-			b.edge(z, first+k-1)
-			b.edge(a, first)
-		}
-		for e := rng.Intn(3); e > 0; e-- { // a few exits
-			x := b.node()
-			b.edge(first+rng.Intn(k), x)
-		}
-		if rng.Intn(3) == 0 {
-			b.decorate(rng, root, 3)
-		}
-		return b.finish(rng, root, rng.Bool()), "two-entry-bidirectional-chain"
+		return c19GenChain(rng, 40, false), "two-entry-bidirectional-chain"
 	}
 	if i%2 == 0 {
 		budget := rng.Range(3, 24)
@@ -1449,6 +1686,338 @@ func c19GenIrreducible(rng *mon.Rand, i int) (c19Case, string) {
 	return b.finish(rng, root, true), "planted-two-entry-cycle"
 }
 
+// c19GenChain: a chain c1<->c2<->...<->ck entered from both ends (directly
+// from the root or through an intermediate node at either end): every ci is
+// immediately dominated by the entry, and a sweep-based algorithm learns that
+// for one more node per sweep (about k sweeps). The whole graph has at most
+// limit nodes; deep makes the chain (nearly) as long as that allows.
+func c19GenChain(rng *mon.Rand, limit int, deep bool) c19Case {
+	b := &c19B{}
+	viaA, viaZ := rng.Bool(), rng.Bool()
+	exits := rng.Intn(3)
+	deco := rng.Intn(3) == 0
+	kmax := limit - 1 - exits
+	if viaA {
+		kmax--
+	}
+	if viaZ {
+		kmax--
+	}
+	if deco {
+		kmax -= 3 // decorate adds up to 3 unreachable nodes
+	}
+	k := rng.Range(3, kmax)
+	if deep {
+		k = kmax - rng.Intn(6)
+	}
+	root := b.node()
+	a, z := root, root
+	if viaA {
+		a = b.node()
+		b.edge(root, a)
+	}
+	if viaZ {
+		z = b.node()
+		b.edge(root, z)
+	}
+	first := b.n()
+	b.nodes(k)
+	for j := 0; j+1 < k; j++ {
+		b.edge(first+j, first+j+1)
+		b.edge(first+j+1, first+j)
+	}
+	if rng.Bool() {
+		b.edge(a, first)
+		b.edge(z, first+k-1)
+	} else { // the far end first in the successor list of a shared entry
+		b.edge(z, first+k-1)
+		b.edge(a, first)
+	}
+	for e := exits; e > 0; e-- {
+		x := b.node()
+		b.edge(first+rng.Intn(k), x)
+	}
+	if deco {
+		b.decorate(rng, root, 3)
+	}
+	return b.finish(rng, root, rng.Bool())
+}
+
+// c19MaxChainSizes are the graph sizes of the deterministic chain family: the
+// sizes around the quantifier limit of 40 nodes, and some beyond.
+var c19MaxChainSizes = []int{33, 34, 35, 36, 37, 38, 39, 40, 64, 65, 100, 200}
+
+const c19MaxChainVariants = 2 * 3 * 2 * 2 * 2 // far-first x root position x numbering x intermediates x list order
+
+// c19MaxChain builds case i of the deterministic family of maximal chains: a
+// graph of exactly size nodes that is nothing but the root, the chain and
+// (variant) one intermediate node at either end. The variants: which end comes
+// first in the root's successor list; the root numbered first, in the middle
+// or last; the chain numbered away from or towards the first entry; entered
+// directly or through intermediates; every list in ascending or descending
+// order.
+func c19MaxChain(i int) c19Case {
+	size := c19MaxChainSizes[i/c19MaxChainVariants%len(c19MaxChainSizes)]
+	v := i % c19MaxChainVariants
+	farFirst := v&1 != 0
+	v >>= 1
+	rootPos := v % 3
+	v /= 3
+	descending := v&1 != 0
+	v >>= 1
+	via := v&1 != 0
+	v >>= 1
+	revLists := v&1 != 0
+
+	k := size - 1
+	if via {
+		k -= 2
+	}
+	// ids in numbering order: [a] chain [z], the root inserted at rootPos
+	seq := make([]int, 0, size) // logical node at each id; logical: 0 root, 1 a, 2 z, 3.. chain
+	if via {
+		seq = append(seq, 1)
+	}
+	for j := 0; j < k; j++ {
+		if descending {
+			seq = append(seq, 3+k-1-j)
+		} else {
+			seq = append(seq, 3+j)
+		}
+	}
+	if via {
+		seq = append(seq, 2)
+	}
+	at := [3]int{0, len(seq) / 2, len(seq)}[rootPos]
+	seq = append(seq, 0)
+	copy(seq[at+1:], seq[at:])
+	seq[at] = 0
+	id := make([]int, 3+k)
+	for pos, l := range seq {
+		id[l] = pos
+	}
+	out := make([][]int, size)
+	for v := range out {
+		out[v] = []int{}
+	}
+	edge := func(u, v int) { out[id[u]] = append(out[id[u]], id[v]) }
+	a, z := 0, 0
+	if via {
+		a, z = 1, 2
+	}
+	first, last := 3, 3+k-1
+	if via && farFirst {
+		edge(0, z)
+		edge(0, a)
+	} else if via {
+		edge(0, a)
+		edge(0, z)
+	}
+	if farFirst {
+		edge(z, last)
+		edge(a, first)
+	} else {
+		edge(a, first)
+		edge(z, last)
+	}
+	for j := first; j <= last; j++ {
+		if j < last {
+			edge(j, j+1)
+		}
+		if j > first {
+			edge(j, j-1)
+		}
+	}
+	in := c19Transpose(out)
+	for v := range in {
+		if in[v] == nil {
+			in[v] = []int{}
+		}
+	}
+	if revLists {
+		for _, ls := range [2][][]int{out[:], in} {
+			for v, l := range ls {
+				if v == id[0] {
+					continue // the root's successor order is the farFirst variant
+				}
+				for p, q := 0, len(l)-1; p < q; p, q = p+1, q-1 {
+					l[p], l[q] = l[q], l[p]
+				}
+			}
+		}
+	}
+	return c19Case{Out: out, In: in, Root: id[0], Layout: i % 3, Mode: c19ModeOf(uint(i))}
+}
+
+// c19GenLongPath: a path root -> 1 -> 2 -> ... (so that the dominator tree is
+// as deep as the graph is big) with backward edges, self-loops, parallel
+// edges, sometimes a few short forward chords and an unreachable region
+// feeding the path. size 0: at most 40 nodes in all, otherwise a path of that
+// many nodes plus the unreachable region.
+func c19GenLongPath(rng *mon.Rand, i, size int) (c19Case, string) {
+	b := &c19B{}
+	u := 0
+	if rng.Intn(3) == 0 {
+		u = rng.Range(1, 4)
+	}
+	L, label := size, "long-path-large"
+	if size == 0 {
+		label = "long-path"
+		L = 40 - u
+		if i%2 == 1 {
+			L = rng.Range(20, 40-u)
+		}
+	} else if u > 0 {
+		u = rng.Range(5, 30)
+	}
+	b.nodes(L)
+	for v := 0; v+1 < L; v++ {
+		b.edge(v, v+1)
+		if rng.Intn(16) == 0 { // parallel path edge
+			for e := rng.Range(1, 3); e > 0; e-- {
+				b.edge(v, v+1)
+			}
+		}
+	}
+	span := L
+	if size > 0 {
+		span = 40 // keep most back edges of a big path local: frontier sets stay small
+	}
+	nb := rng.Intn(L)
+	if size > 0 {
+		nb = rng.Range(L/8, L/3)
+	}
+	if i%5 == 0 {
+		nb = 0 // the bare path
+	}
+	for e := nb; e > 0; e-- {
+		from := rng.Range(1, L-1)
+		lo := from - span
+		if lo < 0 || (size > 0 && rng.Intn(64) == 0) {
+			lo = 0
+		}
+		b.edge(from, rng.Range(lo, from)) // backward or self
+	}
+	if i%5 != 0 && rng.Intn(4) == 0 { // a few short forward chords (the tree gets a little shallower)
+		for e := rng.Range(1, 3); e > 0; e-- {
+			if from := rng.Intn(L); from+2 < L {
+				b.edge(from, from+2+rng.Intn(c19Min(3, L-from-2)))
+			}
+		}
+	}
+	if u > 0 {
+		first := b.n()
+		b.nodes(u)
+		for x := first; x < first+u; x++ {
+			for e := rng.Range(1, 3); e > 0; e-- {
+				b.edge(x, rng.Intn(L))
+			}
+			if rng.Bool() {
+				b.edge(x, first+rng.Intn(u))
+			}
+		}
+	}
+	return b.finish(rng, 0, rng.Bool()), label
+}
+
+func c19Min(a, b int) int {
+	if a < b {
+		return a
+	}
+	return b
+}
+
+// c19GenHeavy: small graphs with very heavy multi-edges (one edge repeated
+// 50..300 times, a join whose predecessor list has 200..700 entries, an
+// unreachable node pointing at a reachable join dozens of times), and, on
+// every 16th case, a join with 200..330 distinct predecessors.
+func c19GenHeavy(rng *mon.Rand, i int) (c19Case, string) {
+	b := &c19B{}
+	root := b.node()
+	if i%16 == 5 {
+		mids := rng.Range(1, 4)
+		b.nodes(mids)
+		for m := 1; m <= mids; m++ {
+			b.edge(root, m)
+		}
+		join := b.node()
+		fan := rng.Range(200, 330)
+		for f := 0; f < fan; f++ {
+			x := b.node()
+			b.edge(rng.Intn(1+mids), x)
+			b.edge(x, join)
+			if rng.Intn(8) == 0 && x > join+1 {
+				b.edge(x, rng.Range(join+1, x)) // among the fan (forward, backward or self)
+			}
+		}
+		t := b.node()
+		b.edge(join, t)
+		switch rng.Intn(3) {
+		case 0:
+			b.edge(t, root)
+		case 1:
+			b.edge(t, root)
+			b.edge(join, root)
+		}
+		for x := rng.Intn(40); x > 0; x-- { // unreachable predecessors of the join
+			y := b.node()
+			b.edge(y, join)
+		}
+		return b.finish(rng, root, true), "heavy-in-degree-distinct-preds"
+	}
+	n := rng.Range(2, 12)
+	b.nodes(n - 1)
+	for v := 1; v < n; v++ { // a random tree hanging off the root, plus chords
+		b.edge(rng.Intn(v), v)
+	}
+	for e := rng.Intn(2 * n); e > 0; e-- {
+		b.edge(rng.Intn(n), rng.Intn(n))
+	}
+	// one to three edges (possibly new ones, possibly self-loops) repeated
+	for e := rng.Range(1, 3); e > 0; e-- {
+		x, y := rng.Intn(n), rng.Intn(n)
+		for m := rng.Range(50, 300); m > 0; m-- {
+			b.edge(x, y)
+		}
+	}
+	// a join with 200..700 predecessor entries from a few distinct nodes
+	join := rng.Intn(n)
+	for total := rng.Range(200, 700); total > 0; {
+		x := rng.Intn(n)
+		m := rng.Range(1, 150)
+		if m > total {
+			m = total
+		}
+		total -= m
+		for ; m > 0; m-- {
+			b.edge(x, join)
+		}
+	}
+	// unreachable nodes pointing at the join (and elsewhere) many times
+	for x := rng.Intn(4); x > 0; x-- {
+		y := b.node()
+		for m := rng.Range(10, 100); m > 0; m-- {
+			b.edge(y, join)
+		}
+		b.edge(y, rng.Intn(n))
+		if rng.Bool() {
+			b.edge(y, y)
+		}
+	}
+	if rng.Intn(4) == 0 { // the root without in-edges
+		for x := range b.out {
+			l := b.out[x][:0]
+			for _, y := range b.out[x] {
+				if y != root {
+					l = append(l, y)
+				}
+			}
+			b.out[x] = l
+		}
+	}
+	return b.finish(rng, root, true), "heavy-multi-edge"
+}
+
 // genLarge: 1100-2100 nodes so that reachable node ids cross the 1024 growth
 // boundary of the library's mark set; bushy tree plus chords, back edges and an
 // unreachable region feeding joins.
@@ -1492,8 +2061,8 @@ func c19GenLarge(rng *mon.Rand, i int) (c19Case, string) {
 
 func c19Run(r *mon.Run) {
 	maxN := r.Pick(4, 5)
-	r.Rule(fmt.Sprintf("every digraph (adjacency matrix, self-loops included) on 1..%d nodes with every root, successor/predecessor list order varied by case; random matrices on 5..8 nodes; random multigraphs up to 40 nodes: G(n,p) from tree-like to complete, structured (reducible) control flow, planted two-entry cycles and bidirectional chains entered from both ends (one sweep per chain node), each optionally with an unreachable region feeding reachable joins, parallel edges, self-loops, chosen root in-degree, random node numbering and list order; sparse graphs with 1025..2160 nodes. Histories: every digraph on 2..%d nodes with every ordered pair of distinct roots, and random graphs of all the kinds above with 2..6 roots, queried one after another on one graph object that is never rebuilt. Storage of the lists the library sees varied by case: exact capacity, back-to-back sub-slices of one array (capacity reaching into the next list), the same with canary cells between the lists. Every query: IDom, then DomFrontier on the slice IDom returned (a copy of idom* if that was wrong), then Dom on that same slice as DomFrontier left it (and Dom(idom*) if it was changed), then DomFrontier with nil, all through a counting BiGraph and all judged against the reference for the graph as the caller built it; the graph object is never repaired, and once a call has changed its lists it is queried with up to 8 further roots. Non-trivial: every case hits a root-in-degree and a layout class; distinct by hash of (n, roots, layout, all lists).", maxN, r.Pick(3, 4)))
-	r.Assume("reference: dominance by node deletion + reachability (bitmask version <=64 nodes, boolean-matrix version above), cross-checked at start-up against each other, against a dataflow fixed point and against three graphs from the literature",
+	r.Rule(fmt.Sprintf("every digraph (adjacency matrix, self-loops included) on 1..%d nodes with every root, successor/predecessor list order varied by case; random matrices on 5..8 nodes; random multigraphs up to 40 nodes: G(n,p) from tree-like to complete, structured (reducible) control flow, planted two-entry cycles and bidirectional chains entered from both ends (one sweep per chain node), each optionally with an unreachable region feeding reachable joins, parallel edges, self-loops, chosen root in-degree, random node numbering and list order; sparse graphs with 1025..2160 nodes. Depth and weight: bidirectional chains as long as the 40-node limit allows (and some with 60..200 nodes) at random and, deterministically, every maximal chain variant for the sizes 33..40, 64, 65, 100, 200 (the number of sweeps an iterative dataflow solution of the reference's own needs is recorded as a class); paths root->1->2->... of up to 40 nodes (dominator tree as deep as the graph) and of 1040..1600 nodes, with backward, parallel and self edges and unreachable feeders; small graphs with edges repeated 50..300 times, joins with 200..700 predecessor entries, unreachable nodes pointing at a join 10..100 times, and joins with 200..330 distinct predecessors. Histories: every digraph on 2..%d nodes with every ordered pair of distinct roots, and random graphs of all the kinds above with 2..6 roots, queried one after another on one graph object that is never rebuilt. Storage of the lists the library sees varied by case: exact capacity, back-to-back sub-slices of one array (capacity reaching into the next list), the same with canary cells between the lists. Every query: IDom, then DomFrontier on the slice IDom returned (a copy of idom* if that was wrong), then Dom on that same slice as DomFrontier left it (and Dom(idom*) if it was changed), then DomFrontier with nil; on every other case DomFrontier and Dom get a caller-made copy of that slice (own array, spare capacity filled with junk) instead; every tree Dom returns is asked twice (IDom/Out/In ascending, then In/Out/IDom descending); on every fourth case the library sees the graph through a second BiGraph implementation (struct value, nil for empty lists, a fresh copy of the list on every call); all through a counting BiGraph and all judged against the reference for the graph as the caller built it; the graph object is never repaired, and once a call has changed its lists it is queried with up to 8 further roots. Non-trivial: every case hits a root-in-degree and a layout class; distinct by hash of (n, roots, layout, all lists).", maxN, r.Pick(3, 4)))
+	r.Assume("reference: dominance by node deletion + reachability (bitmask version <=64 nodes, boolean-matrix version above), cross-checked at start-up against each other, against a dataflow fixed point and against three graphs from the literature; on every graph of 6 or more nodes idom* is also compared with an iterative dataflow solution written for the reference (a difference makes the run inconclusive)",
 		"DomFrontier lists are compared as sets (duplicates are counted, not judged); sets of unreachable nodes are not judged; membership of the root is not compared when the root has exactly one in-edge",
 		"DomTree.In(v) for a node without immediate dominator may be empty or [-1]",
 		"a non-terminating loop that never calls into the graph can only trip the process watchdog (inconclusive)",
@@ -1505,7 +2074,14 @@ func c19Run(r *mon.Run) {
 		"layout-exact-capacity", "layout-csr-shared-capacity", "layout-slack-canaries",
 		"shared-array:list-after-root's-in-list-is-a-reachable-join's",
 		"history-several-roots", "history-returns-to-first-root", "history-later-root-reaches-nodes-unreachable-before",
-		"pipeline:IDom->DomFrontier->Dom-on-one-slice")
+		"pipeline:IDom->DomFrontier->Dom-on-one-slice",
+		// round 3
+		"pipeline:IDom->caller's-copy->DomFrontier->Dom", "idom-arg:caller-copy-with-spare-capacity",
+		"bigraph:value-type,nil-empty-lists,fresh-copies",
+		"chain-maximal", "chain-of-60..200-nodes", "long-path", "long-path-large", "heavy-multi-edge", "heavy-in-degree-distinct-preds",
+		"dataflow-fixpoint-needs>=32-sweeps", "dataflow-fixpoint-needs>=38-sweeps", "dataflow-fixpoint-needs>=64-sweeps",
+		"dominator-tree-depth>=39", "dominator-tree-depth>=1000",
+		"edge-multiplicity>=50", "in-degree>=200", "join-with>=32-unreachable-pred-edges")
 
 	st := mon.NewRand(0xc19, 1)
 	if err := ref.DomSelfTest(st.Uint64, r.Pick(3000, 20000)); err != nil {
@@ -1531,6 +2107,7 @@ func c19Run(r *mon.Run) {
 					variant := (m*7 + root*3 + m>>5) & 3
 					c := sc.matrixCase(n, uint64(m), root, variant)
 					c.Layout = int((uint(m)*2654435761>>7 + uint(root)) % 3)
+					c.Mode = c19ModeOf(uint(m)*5 + uint(root))
 					c19Judge(w, c, sc, keepDistinct)
 				}
 			}
@@ -1563,6 +2140,7 @@ func c19Run(r *mon.Run) {
 		for root := 0; root < n; root++ {
 			c := sc.matrixCase(n, m, root, variant)
 			c.Layout = rng.Intn(3)
+			c.Mode = c19RandMode(rng)
 			c19Judge(w, c, sc, true)
 		}
 	})
@@ -1590,6 +2168,7 @@ func c19Run(r *mon.Run) {
 						c := sc.matrixCase(n, uint64(m), r1, (m+r1+r2)&3)
 						second[0] = r2
 						c.Roots = second[:]
+						c.Mode = c19ModeOf(uint(m)*7 + uint(r1*5+r2))
 						if n <= 3 {
 							for c.Layout = 0; c.Layout < 3; c.Layout++ {
 								c19Judge(w, c, sc, true)
@@ -1644,6 +2223,7 @@ func c19Run(r *mon.Run) {
 			c.Roots[k-1] = c.Root // back to the first root
 		}
 		c.Layout = rng.Intn(3)
+		c.Mode = c19RandMode(rng)
 		c19Judge(w, c, sc, true)
 	})
 
@@ -1651,6 +2231,7 @@ func c19Run(r *mon.Run) {
 		r.Parallel(class, count, func(w *mon.W, i int) {
 			c, label := f(w.Rng, i)
 			c.Layout = w.Rng.Intn(3)
+			c.Mode = c19RandMode(w.Rng)
 			w.Hit(label)
 			c19Judge(w, c, nil, true)
 		})
@@ -1658,6 +2239,28 @@ func c19Run(r *mon.Run) {
 	gen("random-density", r.Pick(150000, 400000), c19GenDensity)
 	gen("random-structured", r.Pick(100000, 300000), c19GenStructured)
 	gen("random-irreducible", r.Pick(100000, 300000), c19GenIrreducible)
+
+	// ---- depth: chains that need as many sweeps as the graph has nodes
+	nMax := c19MaxChainVariants * len(c19MaxChainSizes)
+	r.Parallel("chain-maximal", nMax, func(w *mon.W, i int) {
+		c := c19MaxChain(i)
+		w.Hit("chain-maximal")
+		w.HitIf(len(c.Out) > 40, "chain-of-60..200-nodes")
+		if i%7 == 3 { // a history: from the middle of the chain, then from the root again
+			c.Roots = []int{(c.Root + len(c.Out)/2) % len(c.Out), c.Root}
+		}
+		c19Judge(w, c, nil, true)
+	})
+	r.Exhaustive(fmt.Sprintf("chain-maximal: for each graph size in %v the root plus a bidirectional chain entered from the root at both ends, in all %d variants (which end first in the root's successor list, root numbered first/middle/last, chain numbered away from/towards the first entry, entered directly/through one intermediate node at either end, lists ascending/descending)", c19MaxChainSizes, c19MaxChainVariants))
+	gen("chain-deep", r.Pick(2000, 12000), func(rng *mon.Rand, i int) (c19Case, string) {
+		if i%40 == 7 {
+			return c19GenChain(rng, rng.Range(60, 200), rng.Bool()), "chain-of-60..200-nodes"
+		}
+		return c19GenChain(rng, 40, i%2 == 0), "two-entry-bidirectional-chain"
+	})
+	// ---- depth of the dominator tree, weight of the lists
+	gen("long-path", r.Pick(6000, 30000), func(rng *mon.Rand, i int) (c19Case, string) { return c19GenLongPath(rng, i, 0) })
+	gen("heavy-multi-edge", r.Pick(3000, 15000), c19GenHeavy)
 	// few workers and a smaller stack limit: should a recursion of the library
 	// run away on a 2000-node graph, the process dies of stack exhaustion (which
 	// ./check reports as a violation) before it eats the machine's memory
@@ -1665,6 +2268,14 @@ func c19Run(r *mon.Run) {
 	r.ParallelN("large-ids", r.Pick(32, 96), 4, func(w *mon.W, i int) {
 		c, label := c19GenLarge(w.Rng, i)
 		c.Layout = i % 3
+		c.Mode = c19ModeOf(uint(i))
+		w.Hit(label)
+		c19Judge(w, c, nil, true)
+	})
+	r.ParallelN("long-path-large", r.Pick(6, 24), 4, func(w *mon.W, i int) {
+		c, label := c19GenLongPath(w.Rng, i, w.Rng.Range(1040, 1600))
+		c.Layout = i % 3
+		c.Mode = i % 4
 		w.Hit(label)
 		c19Judge(w, c, nil, true)
 	})
